@@ -847,6 +847,56 @@ func (i *InsertStatement) SQL() string {
 	return sb.String()
 }
 
+// SQL returns the SQL representation of a MySQL REPLACE INTO statement.
+func (r *ReplaceStatement) SQL() string {
+	if r == nil {
+		return ""
+	}
+	sb := getBuilder()
+	defer putBuilder(sb)
+	sb.WriteString("REPLACE INTO ")
+	sb.WriteString(r.TableName)
+	if len(r.Columns) > 0 {
+		sb.WriteString(" (")
+		sb.WriteString(exprListSQL(r.Columns))
+		sb.WriteString(")")
+	}
+	sb.WriteString(" VALUES ")
+	rows := make([]string, len(r.Values))
+	for idx, row := range r.Values {
+		rows[idx] = "(" + exprListSQL(row) + ")"
+	}
+	sb.WriteString(strings.Join(rows, ", "))
+	return sb.String()
+}
+
+// SQL returns the SQL representation of a MySQL SHOW statement.
+func (s *ShowStatement) SQL() string {
+	if s == nil {
+		return ""
+	}
+	out := "SHOW " + s.ShowType
+	if s.ObjectName != "" {
+		if strings.HasPrefix(s.ShowType, "CREATE ") {
+			out += " " + s.ObjectName
+		} else {
+			out += " FROM " + s.ObjectName
+		}
+	}
+	if s.From != "" {
+		out += " FROM " + s.From
+	}
+	return out
+}
+
+// SQL returns the SQL representation of a MySQL DESCRIBE statement.
+func (d *DescribeStatement) SQL() string {
+	if d == nil {
+		return ""
+	}
+	return "DESCRIBE " + d.TableName
+}
+
 func (u *UpdateStatement) SQL() string {
 	if u == nil {
 		return ""
